@@ -279,4 +279,23 @@ theorem runU_sent_postV3 {wg : World × Ghost} (ops : List (Block × Op)) (hv : 
       simp only [stepU, hx]
       omega
 
+/-! ## On histories that respect IBC core's guarantee nothing is skipped -/
+
+/-- Every op of the history is `admissible` at the point where it happens (IBC core's guarantee as a
+predicate on the history instead of a filter). -/
+def AdmissibleFrom (wg : World × Ghost) : List (Block × Op) → Prop
+  | [] => True
+  | o :: rest => admissible wg.2 o.2 = true ∧ AdmissibleFrom (stepG wg o.1 o.2) rest
+
+/-- On such a history `runG` skips nothing: it is the unfiltered ghost history, and its world is the plain
+history. -/
+theorem runG_eq_runU {wg : World × Ghost} (ops : List (Block × Op)) (h : AdmissibleFrom wg ops) :
+    runG wg ops = runU wg ops := by
+  induction ops generalizing wg with
+  | nil => rfl
+  | cons o rest ih =>
+    have := ih h.2
+    simp only [runG, runU, List.foldl_cons] at this ⊢
+    rw [this, stepG_eq_stepU h.1]
+
 end CwPlus.Ics20
